@@ -165,8 +165,8 @@ SITES = {
     'runtime.to_bits#0': dict(
         kind='xor', mask='r_modl', names={'l': ('l', ['<param>', 'l = stype.bit_length', 'l -= f'])},
         flow=['r_bits = await self.random_bits(field, l)'],
-        scale='1 << l', secret='1 << L', pre=[('1', 'l'), ('l', 'L')],
-        doc='binary field: a xor (l uniform bits); bits l.. of a are not masked'),
+        scale='1 << l', secret='1 << l', pre=[('1', 'l'), ('l', 'L')],
+        doc='binary field: a xor (l uniform bits); precondition of to_bits(a, l): a < 2^l (bits l.. of a are zero)'),
     'runtime.to_bits#1': dict(
         kind='add', via='randoms', mask='r_divl',
         gen=['r_divl = self._random(field, BOUND)'], flow=['r_bits = await self.random_bits(field, l)'],
@@ -175,7 +175,7 @@ SITES = {
     'runtime.np_to_bits#0': dict(
         kind='xor', mask='r_modl', names={'l': ('l', ['<param>', 'l = stype.bit_length', 'l -= f'])},
         flow=['r_bits = await self.np_random_bits(field, n * l)'],
-        scale='1 << l', secret='1 << L', pre=[('1', 'l'), ('l', 'L')], doc='as to_bits (binary field)'),
+        scale='1 << l', secret='1 << l', pre=[('1', 'l'), ('l', 'L')], doc='as to_bits (binary field; precondition a < 2^l)'),
     'runtime.np_to_bits#1': dict(
         kind='add', via='randoms', mask='r_divl',
         gen=['r_divl = self._np_randoms(field, n, BOUND)'], flow=['r_bits = await self.np_random_bits(field, n * l)'],
